@@ -126,6 +126,10 @@ def coq_ops(emb):
         elif o == 'A':
             n += 1
             out.append('OAppend [[]; %s; []]' % cstr('zz_verif_unrelated_%d := %d' % (n, n)))
+        elif o[0] == 'F':
+            n += 1
+            args = ', '.join('zz_' + chr(97 + i) for i in range(int(o[1:])))
+            out.append('OAppend [[]; %s; []]' % cstr('zz_verif_unrelated_%d(%s) := [%s]' % (n, args, args)))
         else:
             raise ValueError(o)
     return clist(out)
